@@ -368,3 +368,15 @@ Proof.
   assert (Hn : Z.to_nat (ceil_div d (eff_dur s osd)) = 0%nat) by nia. rewrite Hn.
   cbn. destruct (d <? 0); reflexivity.
 Qed.
+
+(** Instances for notes, as stated in Props/C13.v. *)
+Lemma placed_notes_In : forall (get : seq -> list note) mv ps cur e,
+  In e (placed get mv ps cur) <->
+  exists i p e0 off, nth_error ps i = Some p /\ In e0 (get (fst p)) /\
+                     off = cur + offset ps i /\ e = mv (fun t => t + off) e0.
+Proof. intros. apply placed_In. Qed.
+
+Lemma repeat_notes_In : forall s sd n (e : note),
+  In e (placed s_notes note_t (repeat (s, Some sd) n) 0) <->
+  exists k e0 off, (k < n)%nat /\ In e0 (s_notes s) /\ off = Z.of_nat k * sd /\ e = note_t (fun t => t + off) e0.
+Proof. intros. apply placed_repeat_In. Qed.
